@@ -248,46 +248,3 @@ Print Assumptions C09_series_total_is_model.
 Print Assumptions C09_pyth_twin.
 Print Assumptions C09_exec_twin.
 Print Assumptions C09_exec_twin_normed.
-
-(* ---- composition with the generated kinematics / wrappers / grid-resolution / simple phase-matching models (Proofs/Compose_*.v) ---- *)
-From SpdVerif Require Import Model.Optics Model.Fresnel Gen.Kinematics Proofs.Compose_kinematics Proofs.Compose_kinematics_links
-  Proofs.Compose_kinematics_examples.
-
-(* hom_time_delay (the delay at which the dip sits; an input of the theorems above) on the GENERATED Beam::average_transit_time
-   (Gen/Kinematics.v): with the two transit times of ts_source_of_beams taken from the signal and idler beams of one crystal
-   (length L, signed poling period `period`, index = CrystalSetup::index_along, any function), the generated hom_time_delay is
-   the difference of the two half-crystal path lengths over the generated group velocities, plus the waist-position term. *)
-Theorem C09_hom_time_delay_from_beams : forall index L period ws wi ds di ps pi_ wp_s wp_i,
-  unit_vec ds -> unit_vec di -> vz ds <> 0 -> vz di <> 0 -> 0 <= L ->
-  src_hom_time_delay (ts_source_of_beams index L period ws wi ds di ps pi_ wp_s wp_i) =
-  (0.5 * L / Rabs (vz di)) / beam_group_velocity_gen index wi di pi_ period
-  - (0.5 * L / Rabs (vz ds)) / beam_group_velocity_gen index ws ds ps period + (wp_i - wp_s) / light_speed.
-Proof. exact kin_hom_time_delay. Qed.
-Print Assumptions C09_hom_time_delay_from_beams.
-
-(* identical signal and idler beams (degenerate, collinear, same polarization): only the waist positions delay the dip *)
-Theorem C09_hom_time_delay_degenerate : forall index L period w d p wp_s wp_i,
-  unit_vec d -> vz d <> 0 -> 0 <= L ->
-  src_hom_time_delay (ts_source_of_beams index L period w w d d p p wp_s wp_i) = (wp_i - wp_s) / light_speed.
-Proof. exact kin_hom_time_delay_degenerate. Qed.
-Print Assumptions C09_hom_time_delay_degenerate.
-
-(* the three delays of the two-source rates (ss, ii, si) of two crystals *)
-Theorem C09_two_source_time_delays_from_beams :
-  forall index1 index2 L1 L2 period1 period2 ws1 wi1 ws2 wi2 ds1 di1 ds2 di2 ps1 pi1 ps2 pi2 a1 b1 a2 b2,
-  unit_vec ds1 -> unit_vec di1 -> unit_vec ds2 -> unit_vec di2 -> vz ds1 <> 0 -> vz di1 <> 0 -> vz ds2 <> 0 -> vz di2 <> 0 ->
-  0 <= L1 -> 0 <= L2 ->
-  let s1 := ts_source_of_beams index1 L1 period1 ws1 wi1 ds1 di1 ps1 pi1 a1 b1 in
-  let s2 := ts_source_of_beams index2 L2 period2 ws2 wi2 ds2 di2 ps2 pi2 a2 b2 in
-  let Ts1 := (0.5 * L1 / Rabs (vz ds1)) / beam_group_velocity_gen index1 ws1 ds1 ps1 period1 in
-  let Ti1 := (0.5 * L1 / Rabs (vz di1)) / beam_group_velocity_gen index1 wi1 di1 pi1 period1 in
-  let Ts2 := (0.5 * L2 / Rabs (vz ds2)) / beam_group_velocity_gen index2 ws2 ds2 ps2 period2 in
-  let Ti2 := (0.5 * L2 / Rabs (vz di2)) / beam_group_velocity_gen index2 wi2 di2 pi2 period2 in
-  src_ts_time_delays s1 s2 =
-  ((Ts2 - Ts1 + (a2 - a1) / light_speed, Ti2 - Ti1 + (b2 - b1) / light_speed), Ti2 - Ts1 + (b2 - a1) / light_speed).
-Proof. exact kin_ts_time_delays. Qed.
-Print Assumptions C09_two_source_time_delays_from_beams.
-
-(* non-vacuity: a beam along z in a 2 mm crystal *)
-Example C09_time_delay_hypotheses_example : unit_vec ez /\ vz ez <> 0 /\ 0 <= 0.002.
-Proof. exact kin_hom_nonvacuous. Qed.
